@@ -439,8 +439,9 @@ theorem dstOffset_stop_alpha {so : Int} {s : List Nat} {o : Int} (p : DstOffset 
 theorem tz_accepts_all' (ext : Bool) (s : List Nat) (r : Rule) (h : Denotes ext s r) :
     from_tz_string s ext = .ok r := by
   cases h with
-  | fixed pn po =>
+  | fixed pn po ho =>
     rename_i s1 s2 n o
+    unfold Within24h at ho
     have hb := offset_bounds po
     unfold from_tz_string
     have st : StopAt isAlpha s2 := by simpa using offset_stop_alpha po []
@@ -451,10 +452,11 @@ theorem tz_accepts_all' (ext : Bool) (s : List Nat) (r : Rule) (h : Denotes ext 
     simp only [P.bind_ok, List.isEmpty_nil, if_true]
     rw [ck32_ok (by omega) (by omega)]
     simp only [P.bind_ok]
-    rw [ltt_new_ok (-o) false n (by simp only [I32_MIN]; omega) (name_nameOk pn)]
+    rw [ltt_new_ok (-o) false n (by omega) (name_nameOk pn)]
     rfl
-  | alt pn1 po1 pn2 po2 pd1 pd2 =>
+  | alt pn1 po1 pn2 po2 pd1 pd2 ho1 ho2 =>
     rename_i s1 s2 s3 s4 s5 s6 n1 n2 o1 o2 t1 t2 d1 d2
+    unfold Within24h at ho1 ho2
     have hb1 := offset_bounds po1
     have hb2 := dstOffset_bounds po2 hb1
     unfold from_tz_string
@@ -476,11 +478,11 @@ theorem tz_accepts_all' (ext : Bool) (s : List Nat) (r : Rule) (h : Denotes ext 
     simp only [P.bind_ok, List.isEmpty_nil, Bool.not_true, Bool.false_eq_true, if_false]
     rw [ck32_ok (by omega) (by omega)]
     simp only [P.bind_ok]
-    rw [ltt_new_ok (-o1) false n1 (by simp only [I32_MIN]; omega) (name_nameOk pn1)]
+    rw [ltt_new_ok (-o1) false n1 (by omega) (name_nameOk pn1)]
     simp only [P.bind_ok]
     rw [ck32_ok (by omega) (by omega)]
     simp only [P.bind_ok]
-    rw [ltt_new_ok (-o2) true n2 (by simp only [I32_MIN]; omega) (name_nameOk pn2)]
+    rw [ltt_new_ok (-o2) true n2 (by omega) (name_nameOk pn2)]
     simp only [P.bind_ok]
     have hw : SECONDS_PER_WEEK = 604800 := rfl
     have dt_bounds : ∀ {sx : List Nat} {dx : RuleDay} {tx : Int}, DayTime ext sx dx tx → iabs tx < 604800 := by
@@ -940,8 +942,8 @@ theorem post_from_tz_string_g (s : List Nat) (ext : Bool) :
     rw [ck32_ok (by omega) (by omega)]
     simp only [P.bind_ok]
     refine post_bind (post_ltt_new _ _ _) ?_
-    rintro t - ⟨rfl, -, hn⟩
-    have := Denotes.fixed (ext := ext) (name_of_tok pn1 (hn _ rfl)) po1
+    rintro t - ⟨rfl, ho, hn⟩
+    have := Denotes.fixed (ext := ext) (name_of_tok pn1 (hn _ rfl)) po1 (by unfold Within24h; omega)
     rw [e1, e2, hc2, List.append_nil]
     exact post_ok this
   · refine post_bind (post_parse_name_g _) ?_
@@ -973,15 +975,15 @@ theorem post_from_tz_string_g (s : List Nat) (ext : Bool) :
         rw [ck32_ok (by omega) (by omega)]
         simp only [P.bind_ok]
         refine post_bind (post_ltt_new _ _ _) ?_
-        rintro std - ⟨rfl, -, hn1⟩
+        rintro std - ⟨rfl, ho1, hn1⟩
         rw [ck32_ok (by omega) (by omega)]
         simp only [P.bind_ok]
         refine post_bind (post_ltt_new _ _ _) ?_
-        rintro dst - ⟨rfl, -, hn2⟩
+        rintro dst - ⟨rfl, ho2, hn2⟩
         refine post_bind (post_alt_new _ _ _ _ _ _) ?_
         rintro a - rfl
         have := Denotes.alt (ext := ext) (name_of_tok pn1 (hn1 _ rfl)) po1 (name_of_tok pn2 (hn2 _ rfl))
-          po2 pd1 pd2
+          po2 pd1 pd2 (by unfold Within24h; omega) (by unfold Within24h; omega)
         have es : s = s1 ++ (s2 ++ (s3 ++ (s4 ++ 44 :: (s5 ++ 44 :: s6)))) := by
           rw [e1, e2, e3, e4, e5, e6, e7, e8, hc8, List.append_nil]
         rw [es]
